@@ -52,6 +52,8 @@ PureStep ==
   /\ UNCHANGED vars
   /\ bad' = bad \cup Fails(R.pre = R.post, "ArgsUnchanged")
                \cup Fails(R.raised \/ R.res1 = R.res2, "Deterministic")
+               \* the result handed out by the first call is the caller's: the later calls have not changed it
+               \cup Fails(R.raised \/ R.res1 = R.res1h, "ResultIntact")
 
 TStep == /\ l >= 0 /\ l < N /\ l' = l + 1 /\ tid' = tid
          /\ IF R.kind = "session" THEN SessionStep ELSE PureStep
